@@ -1,6 +1,7 @@
 package keyset
 
 import (
+	"bytes"
 	"context"
 	"errors"
 
@@ -98,6 +99,13 @@ func (k idealKEK) DecryptWithContext(_ context.Context, ct, ad []byte) ([]byte, 
 
 var errKEK = errors.New("ideal kek: decryption failed")
 
+// getKeysetInfoForTest rebuilds the metadata the Mem writer would have carried, so that the
+// metadata assertions below apply to both writers.
+func getKeysetInfoForTest(h *Handle) *tinkpb.KeysetInfo {
+	ks, _ := entriesToProtoKeyset(h.entries, false)
+	return getKeysetInfo(ks)
+}
+
 // An encrypted keyset written with (key-encryption key, associated data) reads back - only
 // with the same key and the same associated data - as a handle with the same keys, ids,
 // statuses, primary and order; the cleartext part of the written form is metadata only
@@ -116,13 +124,28 @@ func VerifH_keyset_encrypted_io() {
 	kek, other := idealKEK{1, &log}, idealKEK{2, &log}
 	ad := verifrt.Bytes("ad", verifrt.Choice("adn", 2))
 	mem := &MemReaderWriter{}
+	var buf bytes.Buffer
+	binaryIO := verifrt.Choice("io", 2) == 1
+	var w Writer = mem
+	if binaryIO {
+		w = NewBinaryWriter(&buf)
+	}
 	ctxAPI := verifrt.Choice("api", 2) == 1
 	if ctxAPI {
-		err = h.WriteWithContext(context.Background(), mem, kek, ad)
+		err = h.WriteWithContext(context.Background(), w, kek, ad)
 	} else {
-		err = h.WriteWithAssociatedData(mem, kek, ad)
+		err = h.WriteWithAssociatedData(w, kek, ad)
 	}
 	verifrt.Assert(err == nil, "writing the encrypted keyset succeeds")
+	if binaryIO {
+		// the binary writer drops the (redundant) keyset info: what is on the wire is the
+		// encrypted payload only
+		onWire := &tinkpb.EncryptedKeyset{}
+		verifrt.Assert(proto.Unmarshal(buf.Bytes(), onWire) == nil, "the binary form parses as an EncryptedKeyset")
+		verifrt.Assert(onWire.GetKeysetInfo() == nil, "binary writer: no keyset info on the wire")
+		verifrt.Assert(len(log) == 1 && verifrt.EqBytes(onWire.GetEncryptedKeyset(), log[0].ct), "binary writer: the payload is the key-encryption AEAD's ciphertext")
+		mem.EncryptedKeyset = &tinkpb.EncryptedKeyset{EncryptedKeyset: onWire.GetEncryptedKeyset(), KeysetInfo: getKeysetInfoForTest(h)}
+	}
 	verifrt.Assert(mem.Keyset == nil && mem.EncryptedKeyset != nil, "only the encrypted form is written")
 	// the cleartext metadata
 	info := mem.EncryptedKeyset.GetKeysetInfo()
@@ -145,10 +168,14 @@ func VerifH_keyset_encrypted_io() {
 	verifrt.AssertEq(log[0].ct[3:], want, "the encrypted payload is the serialized keyset")
 
 	read := func(k idealKEK, a []byte) (*Handle, error) {
-		if ctxAPI {
-			return ReadWithContext(context.Background(), mem, k, a)
+		var r Reader = mem
+		if binaryIO {
+			r = NewBinaryReader(bytes.NewReader(buf.Bytes()))
 		}
-		return ReadWithAssociatedData(mem, k, a)
+		if ctxAPI {
+			return ReadWithContext(context.Background(), r, k, a)
+		}
+		return ReadWithAssociatedData(r, k, a)
 	}
 	switch verifrt.Choice("case", 3) {
 	case 0:
@@ -167,6 +194,58 @@ func VerifH_keyset_encrypted_io() {
 	default:
 		_, err := read(other, ad)
 		verifrt.Assert(err != nil, "another key-encryption key: rejected")
+	}
+	verifrt.Reach("end")
+}
+
+// WriteWithNoSecrets succeeds exactly for keysets without UNKNOWN / SYMMETRIC /
+// ASYMMETRIC_PRIVATE key material (any position), writes the cleartext keyset then, and
+// writes nothing otherwise; ReadWithNoSecrets applies the same rule on the way in.
+func VerifH_nosecrets_io() {
+	verifrt.NativeSkip("key (de)serialization is summarised")
+	n := 1 + verifrt.Choice("n", 2)
+	var mats [4]tinkpb.KeyData_KeyMaterialType
+	secret := false
+	for i := 0; i < n; i++ {
+		mats[i] = tinkpb.KeyData_KeyMaterialType(verifrt.Choice([...]string{"m0", "m1", "m2"}[i], 5))
+		secret = secret || mats[i] == tinkpb.KeyData_UNKNOWN_KEYMATERIAL || mats[i] == tinkpb.KeyData_SYMMETRIC || mats[i] == tinkpb.KeyData_ASYMMETRIC_PRIVATE
+	}
+	verifrt.Summarize("internal/protoserialization.SerializeKey", func(k key.Key) (*protoserialization.KeySerialization, error) {
+		sk := k.(*stubKey)
+		pt := tinkpb.OutputPrefixType_RAW
+		if sk.req {
+			pt = tinkpb.OutputPrefixType_TINK
+		}
+		return protoserialization.NewKeySerialization(&tinkpb.KeyData{TypeUrl: "type.googleapis.com/stub", Value: []byte{byte(sk.tag)}, KeyMaterialType: mats[sk.tag]}, pt, sk.id)
+	})
+	verifrt.Summarize("internal/protoserialization.ParseKey", func(s *protoserialization.KeySerialization) (key.Key, error) {
+		id, req := s.IDRequirement()
+		return &stubKey{id: id, req: req, tag: int(s.KeyData().GetValue()[0])}, nil
+	})
+	m := arbitraryManager(n)
+	h, err := m.Handle()
+	if err != nil {
+		verifrt.Reach("noprimary")
+		return
+	}
+	mem := &MemReaderWriter{}
+	err = h.WriteWithNoSecrets(mem)
+	verifrt.Assert((err == nil) == !secret, "WriteWithNoSecrets succeeds iff no key has UNKNOWN, SYMMETRIC or ASYMMETRIC_PRIVATE material")
+	if err != nil {
+		verifrt.Assert(mem.Keyset == nil && mem.EncryptedKeyset == nil, "nothing is written on refusal")
+		// the same keyset offered to the reader is refused as well
+		ks, _ := entriesToProtoKeyset(h.entries, false)
+		_, err := ReadWithNoSecrets(&MemReaderWriter{Keyset: ks})
+		verifrt.Assert(err != nil, "ReadWithNoSecrets refuses a keyset with secret material")
+		verifrt.Reach("refused")
+		return
+	}
+	verifrt.Assert(mem.Keyset != nil && len(mem.Keyset.GetKey()) == n, "the cleartext keyset is written")
+	back, err := ReadWithNoSecrets(mem)
+	verifrt.Assert(err == nil && back.Len() == n, "ReadWithNoSecrets accepts what WriteWithNoSecrets wrote")
+	for i := 0; i < n && i < back.Len(); i++ {
+		a, b := h.entries[i], back.entries[i]
+		verifrt.Assert(a.keyID == b.keyID && a.status == b.status && a.isPrimary == b.isPrimary && a.key.Equal(b.key), "same key, id, status and primary, in order")
 	}
 	verifrt.Reach("end")
 }
